@@ -30,7 +30,8 @@ TAG = f"{os.getpid()}"
 
 def workdir(prop: str) -> Path:
     return WORK / f"{prop}-{TAG}"
-EVIDENCE = VERIF / "evidence"
+# runs against a scratch tree (VERIF_REPO) never touch the committed evidence
+EVIDENCE = VERIF / "evidence" if os.environ.get("VERIF_REPO", "/repo") == "/repo" else Path("/tmp/seed-evidence")
 CRATES = {
     "core": VERIF / "harness" / "core",
     "adapters": VERIF / "harness" / "adapters",
@@ -68,6 +69,7 @@ class Job:
     expect_fail: bool = False  # known-finding witness: the harness is expected to FAIL
     replay: str = "playback"  # "playback" | "none"
     min_covers: int = 0
+    all_covers: bool = True  # every cover point must be SATISFIED (else: at least min_covers)
 
 
 @dataclass
@@ -109,6 +111,18 @@ def repo_revision() -> dict:
     }
 
 
+def retarget(dst: Path):
+    """Point a copied harness crate at another tree (VERIF_REPO), for trying the checks on a
+    scratch worktree (seeded changes) without touching /repo.  The registered commands never
+    set VERIF_REPO, so they always compile /repo itself."""
+    if str(REPO) == "/repo":
+        return
+    for f in list(dst.rglob("*.rs")) + list(dst.rglob("Cargo.toml")):
+        t = f.read_text()
+        if "/repo/" in t:
+            f.write_text(t.replace("/repo/", f"{REPO}/"))
+
+
 def prepare_crate(prop: str, crate: str) -> Path:
     """Copy a harness crate into the property's work dir and settle its lockfile, so that
     parallel cargo invocations only read it.  Path dependencies point at /repo, hence every
@@ -118,6 +132,7 @@ def prepare_crate(prop: str, crate: str) -> Path:
         shutil.rmtree(dst)
     dst.parent.mkdir(parents=True, exist_ok=True)
     shutil.copytree(CRATES[crate], dst, ignore=shutil.ignore_patterns("target", "Cargo.lock"))
+    retarget(dst)
     lock = REPO / "Cargo.lock"
     if lock.exists():
         shutil.copy(lock, dst / "Cargo.lock")
@@ -208,7 +223,9 @@ def classify(text: str, rc: int, res: Result, timed_out: bool):
         res.status = "timeout"
         return
     if "VERIFICATION:- SUCCESSFUL" in text:
-        if res.covers_total and res.covers_sat < res.covers_total:
+        if res.job.all_covers and res.covers_total and res.covers_sat < res.covers_total:
+            res.status = "vacuous"
+        elif res.covers_sat < res.job.min_covers:
             res.status = "vacuous"
         elif res.covers_total < res.job.min_covers:
             res.status = "vacuous"
@@ -221,7 +238,10 @@ def classify(text: str, rc: int, res: Result, timed_out: bool):
             return
         real = [f for f in res.failed if "unwinding assertion" not in f["description"]]
         unw = [f for f in res.failed if "unwinding assertion" in f["description"]]
-        if real and all("HARNESS-LIMIT" in f["description"] for f in real):
+        if unw:
+            # once an unwinding assertion has failed nothing else CBMC reports is reliable
+            res.status = "unwind"
+        elif real and all("HARNESS-LIMIT" in f["description"] for f in real):
             res.status = "limit"
         elif real:
             res.status = "fail"
@@ -357,10 +377,13 @@ def native_playback(prop: str, job: Job, test: dict, profile_release: bool = Fal
         shutil.rmtree(dst)
     dst.parent.mkdir(parents=True, exist_ok=True)
     shutil.copytree(src_crate, dst, ignore=shutil.ignore_patterns("target", "Cargo.lock"))
+    retarget(dst)
     if (REPO / "Cargo.lock").exists():
         shutil.copy(REPO / "Cargo.lock", dst / "Cargo.lock")
-    mod = job.name.split("::")[0]
-    modfile = dst / "src" / f"{mod}.rs"
+    parts = job.name.split("::")[:-1]
+    modfile = dst / "src" / Path(*parts).with_suffix(".rs")
+    if not modfile.exists():
+        modfile = dst / "src" / f"{parts[0]}.rs"
     with open(modfile, "a") as f:
         f.write("\n\n" + test["code"] + "\n")
     cmd = ["cargo", "kani", "playback", "-Z", "concrete-playback"]
